@@ -3,7 +3,7 @@ package main
 // Properties without a registered check yet. Each entry is removed when its rules land;
 // entries that remain at the end are genuinely not decidable by the static rules built.
 func init() {
-	for _, id := range []string{"C01", "C03", "C11"} {
+	for _, id := range []string{"C03", "C11"} {
 		notApplicable[id] = "static rules for this property are planned in DESIGN.md but not implemented yet; nothing is claimed until they are"
 	}
 }
